@@ -992,7 +992,11 @@ From ExaV Require Import gen.Gen_ParseShape model.Model_Robust.
 From ExaV Require model.Model_Open.
 Import ListNotations. Open Scope Z_scope.
 (* outcome of Capability.unpack: the capability value decoders of the C07 model *)
+(* host name (73) / software version (75) texts must be valid UTF-8, which Model_Open does not model: a value of these
+   two with a non-ASCII octet is reported as outside the model (99/99) *)
 Definition capv (c : Z) (d : list Z) : option (Z * Z) :=
+  if ((c =? 73) || (c =? 75)) && existsb (fun x => 127 <? x) d then Some (99, 99)
+  else
   match ExaV.model.Model_Open.parse_cap c d with
   | ExaV.model.Model_Open.Ok _ => None
   | ExaV.model.Model_Open.Notify a b => Some (a, b)
@@ -1000,7 +1004,7 @@ Definition capv (c : Z) (d : list Z) : option (Z * Z) :=
 Definition cls (ty : Z) (o : outcome) : Z * Z * Z :=
   match o with
   | Decoded t => (0, if (ty =? 3) || (ty =? 5) || (ty =? 6) then t else 0, 0)
-  | Refused c s => (1, c, s)
+  | Refused c s => if (c =? 99) && (s =? 99) then (3, 0, 0) else (1, c, s)
   | PyError k => if k =? K_UNMODELLED then (3, 0, 0) else (2, 0, 0)
   end.
 Definition eq3 (a b : Z * Z * Z) : bool :=
@@ -1209,6 +1213,7 @@ def decode_time(body, c, reps):
                 pass
             for r in d.withdraws:
                 pass
+            d.attributes.json()  # attribute values are parsed lazily: this is where a community list is walked
         dt = time.perf_counter() - t0
         best = dt if best is None or dt < best else best
     return best
@@ -1446,8 +1451,9 @@ def check(tier, seed):
     for base in valid:
         if base['marks'] or base['ty'] != 2 or len(base['body']) <= 80:
             corrupted += corrupt(rng, base, tier)
-    if tier == 'quick' and len(corrupted) > 5000:
-        corrupted = rng.sample(corrupted, 5000)
+    cap = 5000 if tier == 'quick' else 150000
+    if len(corrupted) > cap:
+        corrupted = rng.sample(corrupted, cap)
     cases = valid + boundary + rand + deep + targets + corrupted
     t_gen = time.time() - t0
 
@@ -1476,10 +1482,9 @@ def check(tier, seed):
     t0 = time.time()
     combos = [(True, ''), (False, ''), (True, 'parsed'), (False, 'parsed'), (True, 'consolidate'), (False, 'packets')]
     read_idx = [i for i, c in enumerate(cases) if len(c['body']) + 19 <= ctx(c['ctx']).msg_size]
-    if tier == 'quick':
-        keep = [i for i in read_idx if cases[i]['klass'] == 'valid']
-        rest = [i for i in read_idx if cases[i]['klass'] != 'valid']
-        read_idx = keep + rng.sample(rest, min(len(rest), 1800))
+    keep = [i for i in read_idx if cases[i]['klass'] == 'valid']
+    rest = [i for i in read_idx if cases[i]['klass'] != 'valid']
+    read_idx = keep + rng.sample(rest, min(len(rest), 1800 if tier == 'quick' else 60000))
     read_fail = {}
     read_dist = collections.Counter()
     for k, i in enumerate(read_idx):
@@ -1496,10 +1501,11 @@ def check(tier, seed):
     t0 = time.time()
     midx = [i for i, c in enumerate(cases) if c['model'] and (len(c['body']) <= 700 or c.get('shape') == 'unk3')
             and not (c.get('shape') == 'unk3' and 700 < c['n'] < 1000)]
-    if tier == 'quick' and len(midx) > 4000:
+    mcap = 4000 if tier == 'quick' else 60000
+    if len(midx) > mcap:
         must = [i for i in midx if cases[i]['klass'] in ('valid', 'valid-framing')]
         rest = [i for i in midx if cases[i]['klass'] not in ('valid', 'valid-framing')]
-        midx = must + rng.sample(rest, 4000 - len(must))
+        midx = must + rng.sample(rest, max(0, mcap - len(must)))
     mcases = [cases[i] for i in midx]
     mouts = [outs[i] for i in midx]
     m_ok, verdicts, mlogs = evaluate_model(run, mcases, mouts, 'c03_m')
@@ -1635,7 +1641,7 @@ def check(tier, seed):
     print(f'[C03] cases {len(cases)} impl {t_impl:.1f}s read_message {t_read:.1f}s coq {t_model:.1f}s timing {t_time:.1f}s', flush=True)
     if run.broken() and not run.failing:
         run.coverage['search'] = (f'{n_obs} observations of the real decoders were judged by the RFC table; none failed')
-    return run.finish(checker_cmd='make -C coq props/Prop_C03.vo && coqc -Q coq ExaV coq/props/Prop_C03.v (Print Assumptions)')
+    return run.finish(level='proof-partial', checker_cmd='make -C coq props/Prop_C03.vo && coqc -Q coq ExaV coq/props/Prop_C03.v (Print Assumptions)')
 
 
 def gen_targets(rng, tier):
@@ -1693,3 +1699,27 @@ def gen_targets(rng, tier):
             x = open_body(rng, mp + [ms, cap_tlv(65, struct.pack('!L', 65001))])
             cases.append(mk(1, x.b, 'ms-few', 'target', 'open-multisession', x.marks, model=True))
     return cases
+
+
+def replay(path):
+    """./check C03 --replay <file>: run the recorded body again through the recorded entry point"""
+    import json
+
+    d = json.load(open(path))
+    case = d.get('case', d)
+    if 'body_hex' not in case or case['body_hex'].endswith('...'):
+        print('replay: the file holds no complete body')
+        return 2
+    c = {'ty': case['message_type'], 'body': bytes.fromhex(case['body_hex']), 'ctx': case['negotiated']['ctx'],
+         'klass': case.get('generated_as', 'replay/replay').split('/')[0], 'what': case.get('generated_as', 'replay/replay').split('/', 1)[1]}
+    if case.get('entry_point', '').startswith('Protocol.read_message'):
+        o = observe_read_message(c['ty'], c['body'], c['ctx'], bool(case.get('adj_rib_in', True)), case.get('api_consumer') or '')
+        j = judge_read(c, o, None, None)
+    elif 'Negotiated' in case.get('entry_point', ''):
+        o = observe_negotiation(c['body'], ctx(c['ctx']))
+        j = (f'exception:OPEN:{o[2]}:negotiate', 'negotiation raises') if o and o[0] == 'X' else None
+    else:
+        o = observe(c['ty'], c['body'], ctx(c['ctx']))
+        j = judge(c, o)
+    print(f'replay: observed {o}; ' + (f'still fails: {j[0]}' if j else 'passes'))
+    return 1 if j else 0
